@@ -352,16 +352,16 @@ add({"name": "decode_mfm_track", "file": "dfs/track_mfm.cc",
                (r"bits\.size\(\)", "BitStream_size(bits)", ">=1"),
                (r"enum class MfmDecodeState", "enum MfmDecodeState", 1), (r"MfmDecodeState::", "", ">=1"),
                (r"\bSector sec;", "struct DecSector sec; decsector_init(&sec);", 1),
-               (r"auto found = bits\.scan_for\(", "struct opt_scan found = BitStream_scan_for(bits, ", 1),
+               (r"auto found = bits\.scan_for\(", "struct opt_scan found = BitStream_scan_for_v(bits, ", 1),
                (r"if \(!found\)", "if (!found.has)", 1), (r"found->first", "found.first", ">=1"),
                (r"std::string error;", "/* error text dropped */", ">=0"),
                (r"std::vector<byte> (\w+);", r"struct decvec \1; decvec_init(&\1);", ">=1"),
                (VERBOSE_BLOCK[0], VERBOSE_BLOCK[1], ">=0"), (VERBOSE_STMT[0], VERBOSE_STMT[1], ">=0"),
-               (r"copy_mfm_bytes\(bits, thisbit, ([^;]*?),\s*&(\w+),\s*error\)", r"copy_mfm_bytes(bits, &thisbit, \1, &\2)", ">=1"),
-               (r"check_crc_with_a1s\((\w+), error\)", r"check_crc_with_a1s(&\1)", ">=1"),
+               (r"copy_mfm_bytes\(bits, thisbit, ([^;]*?),\s*&(\w+),\s*error\)", r"copy_mfm_bytes_v(bits, &thisbit, \1, &\2)", ">=1"),
+               (r"check_crc_with_a1s\((\w+), error\)", r"check_crc_with_a1s_v(&\1)", ">=1"),
                (r"decode_sector_address_and_size\((\w+)\.data\(\), ([^;]*?),\s*error\)", r"decode_sector_address_and_size_v(&\1, \2)", ">=1"),
                (r"const auto is_data\b", "const _Bool is_data", "=0or1"),
-               (r"\b(mark_and_data|header)\[([^\]]*)\]", r"DECVEC_AT(&\1, \2)", ">=0"),
+               (r"\b(mark_and_data|header)\[([^\]]*)\]", r"DECVEC_AT(&\1, \2)", ">=0"), (r"\b(mark_and_data|header)\.size\(\)", r"\1.n", ">=0"),
                (r"sec\.data\.resize\(([^;]*)\);", r"secdata_resize(&sec, \1);", ">=0"),
                (r"std::copy\((\w+)\.begin\(\) \+ ([^,]*),\s*\1\.begin\(\) \+ ([^,]*),\s*sec\.data\.begin\(\)\);", r"secdata_copy(&sec, &\1, (\2), (\3));", ">=0"),
                (r"result\.push_back\(sec\);", "mon_push_sector(&sec);", ">=1"),
